@@ -12,6 +12,7 @@ import (
 	"strings"
 	"sync"
 	"testing"
+	"time"
 
 	"github.com/hedzr/logg/slog"
 	"github.com/hedzr/logg/slog/verifharness/vlib"
@@ -624,3 +625,131 @@ func TestStress(t *testing.T) {
 }
 
 var _ = errors.New
+
+// TestSharedValues: values the goroutines share may stand in any position the API allows, not only as an
+// attribute of the argument list: a Group as the VALUE of a key/value pair ("k", grp / NewAttr("k", grp) / Any),
+// an Attrs list as a value, a slice of groups. The oracle is differential: every call has an explicit time
+// (WriteThru), so its payload is a function of the call; the reference payloads are produced by one goroutine
+// first, then G goroutines make the same calls at the same time and every payload must be one of the reference
+// payloads of that logger, each as often as it was made - and nobody may have written to the shared values.
+func TestSharedValues(t *testing.T) {
+	rapid.Check(t, func(t *rapid.T) {
+		defer vlib.Canon()()
+		sharedExp := sharedGroupExp()
+		shared := vlib.AttrsOf([]vlib.ExpAttr{sharedExp})[0]
+		// a second shared value with many unsorted members (the longer a sort runs, the wider the window)
+		var many []slog.Attr
+		nMany := rapid.SampledFrom([]int{2, 3, 8, 64}).Draw(t, "membersOfTheBigGroup")
+		for i := 0; i < nMany; i++ {
+			many = append(many, slog.NewAttr(fmt.Sprintf("m%03d", (i*37+11)%nMany), i))
+		}
+		big := slog.NewGroupedAttr("big", many...)
+		snapshot := func() string {
+			var walk func(a slog.Attr, sb *strings.Builder)
+			walk = func(a slog.Attr, sb *strings.Builder) {
+				sb.WriteString(a.Key())
+				if items, ok := a.Value().(slog.Attrs); ok {
+					sb.WriteString("{")
+					for _, m := range items {
+						walk(m, sb)
+					}
+					sb.WriteString("}")
+				} else {
+					fmt.Fprintf(sb, "=%v", a.Value())
+				}
+				sb.WriteString(";")
+			}
+			var sb strings.Builder
+			walk(shared, &sb)
+			walk(big, &sb)
+			return sb.String()
+		}
+		before := snapshot()
+		position := rapid.SampledFrom([]string{"pair-value", "attr-value", "attrs-value", "slice-of-groups", "plain"}).Draw(t, "positionOfTheSharedValue")
+		G := rapid.SampledFrom([]int{2, 4, 8, 16}).Draw(t, "goroutines")
+		N := rapid.SampledFrom([]int{5, 20, 60}).Draw(t, "callsPerGoroutine")
+		formats := []string{"json", "logfmt", "color"}
+		log := vlib.NewEventLog()
+		loggers := make([]slog.Logger, len(formats))
+		for i, f := range formats {
+			lg := slog.New("sv-" + f)
+			switch f {
+			case "json":
+				lg.SetJSONMode(true)
+			case "logfmt":
+				lg.SetColorMode(false)
+			default:
+				lg.SetColorMode(true)
+			}
+			w := vlib.NewRec(log, i, 0)
+			lg.SetWriter(w).SetErrorWriter(w).SetLevel(slog.AlwaysLevel)
+			loggers[i] = lg
+		}
+		ts := time.Unix(1700000000, 123456000).UTC()
+		call := func(lgi, i int) {
+			as := slog.Attrs{slog.NewAttr("i", i)}
+			switch position {
+			case "pair-value", "attr-value":
+				as = append(as, slog.NewAttr("asvalue", shared), slog.NewAttr("bigvalue", big))
+			case "attrs-value":
+				as = append(as, slog.NewAttr("asvalue", slog.Attrs{shared, big}))
+			case "slice-of-groups":
+				as = append(as, slog.NewAttr("asvalue", []slog.Attr{shared, big}))
+			default:
+				as = append(as, shared, big)
+			}
+			loggers[lgi].(slog.LogSlogAware).WriteThru(context.Background(), slog.InfoLevel, ts, 0, fmt.Sprintf("shared value call %d", i), as)
+		}
+		// reference: one goroutine
+		want := map[int]map[string]int{}
+		for lgi := range loggers {
+			want[lgi] = map[string]int{}
+			for i := 0; i < N; i++ {
+				n0 := log.Len()
+				call(lgi, i)
+				evs := log.Snapshot()[n0:]
+				if len(evs) != 1 {
+					t.Fatalf("C08 harness expectation: one payload per call, got %d", len(evs))
+				}
+				want[lgi][string(evs[0].Payload)] += G
+			}
+		}
+		if after := snapshot(); after != before {
+			t.Fatalf("C08 shared values (position=%s): logging wrote to a value shared by the callers (a data race whenever two goroutines log it): members were %s, now %s", position, before, after)
+		}
+		n0 := log.Len()
+		var wg sync.WaitGroup
+		start := make(chan struct{})
+		for g := 0; g < G; g++ {
+			wg.Add(1)
+			go func(g int) {
+				defer wg.Done()
+				<-start
+				for i := 0; i < N; i++ {
+					for lgi := range loggers {
+						call((lgi+g)%len(loggers), i)
+					}
+				}
+			}(g)
+		}
+		close(start)
+		wg.Wait()
+		for _, e := range log.Snapshot()[n0:] {
+			if want[e.W][string(e.Payload)] == 0 {
+				t.Fatalf("C08 shared values (position=%s, G=%d, N=%d, format=%s): a destination observed a payload that is not the record of any call made (or more often than it was made) - made by one goroutine, the same calls print differently:\n  %q", position, G, N, formats[e.W], e.Payload)
+			}
+			want[e.W][string(e.Payload)]--
+		}
+		for lgi, m := range want {
+			for p, n := range m {
+				if n != 0 {
+					t.Fatalf("C08 shared values (position=%s, G=%d, N=%d, format=%s): %d records lost: %q", position, G, N, formats[lgi], n, p)
+				}
+			}
+		}
+		if after := snapshot(); after != before {
+			t.Fatalf("C08 shared values (position=%s): logging wrote to a value shared by the callers: members were %s, now %s", position, before, after)
+		}
+		vlib.Case("TestSharedValues", fmt.Sprintf("%s/%d/%d/%d", position, G, N, nMany), "shared-value/"+position)
+	})
+}
